@@ -97,6 +97,11 @@ class PROP(PropCheck):
                                    'IMPORT "TO_UPPER" FROM MOD "STRING"\nDISPLAY(TO_UPPER("x"))\n', 'IMPORT MOD "MAP"\nmm <- MAP()\n',
                                    'EXPORT PROCEDURE ex(q) {\nRETURN NOT (q MOD 2 == 0) AND TRUE OR NULL\n}\nDISPLAY(ex(3))\n']) + prog
             bases.append(prog)
+        # statements that begin with a prefix operator: whether the previous statement was ended by a line break or by ';'
+        # must not matter (a parser that lets an expression continue across a line break before an operator)
+        bases += ['x <- 10\n-3\nDISPLAY(x)\n', 'PROCEDURE f(n) {\nr <- n + 2\n-2\nRETURN r\n}\nDISPLAY(f(5))\n',
+                  'y <- 4\n- y\nDISPLAY(y)\nz <- TRUE\nNOT z\nDISPLAY(z)\n', 'l <- [1, 2]\n-1\nDISPLAY(l)\n[3]\nDISPLAY(l)\n',
+                  'a <- 5\n(a)\nDISPLAY(a)\n']
         lexed = C.run_harness("lex", bases, tag="C06lex")
         ran = C.run_harness("run", bases, self.budget, self.depth, tag="C06run")
         out = []
